@@ -32,10 +32,10 @@ def ops_job(op, elem, n, cap, fmask=0, alias=0, afl=0, maxcnt=2, size=None, std=
     name = 'ops-%s-%s-N%d-c%d%s%s%s%s%s' % (op, elem.replace(' ', ''), n, cap, '-f%d' % fmask if fmask else '', '-alias' if alias else '',
                                           '-a%d' % afl if afl else '', '-s%d' % size if size is not None else '', tag)
     if std != 'c++17': name += '-' + std.replace('+', 'p')
-    if cap == 0 and op in ('pop_back', 'erase1'): return None   # no valid pre-state: these need size >= 1
+    if (cap == 0 or size == 0) and op in ('pop_back', 'erase1'): return None   # no valid pre-state: these need size >= 1
     w = ['normal return'] if witness is None else witness
     if op == 'shrink' and cap == n: w = [x for x in w if 'exceptional' not in x]   # inline: nothing can throw
-    if op == 'at': w = ['out_of_range exit'] + (['normal return'] if cap > 0 else [])
+    if op == 'at': w = ['out_of_range exit'] + (['normal return'] if (cap > 0 and size != 0) else [])
     return Job(name, 'ops', defs, elems=[ELEM_IR[elem]], std=std, unwind=max(maxcap, maxm, 6) + 2, maxalloc=maxcap,
                minalloc=n + 1, expect_witness=w, extra_clang=list(extra_clang),
                desc='%s on small_vector<%s,%d> from any state with capacity %d%s%s' % (op, elem, n, cap, ' (inline)' if cap == n else ' (heap)',
@@ -121,3 +121,15 @@ def nx_job(std='c++17', extra_clang=(), tag=''):
     name = 'nx-' + std.replace('+', 'p') + tag
     return Job(name, 'nx', {}, elems=[], std=std, unwind=4, maxalloc=2, minalloc=0, expect_witness=['normal return'], extra_clang=list(extra_clang),
                desc='noexcept / iterator / nested-type table: 8 element trait combinations x N in {0,2} x 6 allocators x 15 facts, %s' % std)
+
+CONV_IR = {'int': 'i32', 'unsigned': 'i32', 'short': 'i16', 'unsigned short': 'i16', 'signed char': 'i8', 'unsigned char': 'i8', 'char': 'i8',
+           'bool': 'i8', 'long long': 'i64', 'unsigned long long': 'i64', 'long': 'i64', 'unsigned long': 'i64', 'float': 'float', 'double': 'double',
+           'UEnum': 'i32', 'SEnum': 'i32', 'SmallEnum': 'i8', 'Derived*': '%struct.Derived*', 'Base1*': '%struct.Base1*', 'Base2*': '%struct.Base2*',
+           'void*': 'i8*', 'const void*': 'i8*', 'const Derived*': '%struct.Derived*', 'const Base2*': '%struct.Base2*'}
+VIA_NAME = {0: 'pointer', 1: 'sviter', 2: 'forward'}
+def conv_job(src, dst, via=0, ptr=0, n=2, std='c++17', part=0):
+    defs = {'VF_SRC': src, 'VF_DST': dst, 'VF_VIA': via, 'VF_PTR': ptr, 'VF_N': n, 'VF_MAXCAP': 12, 'VF_PART': part, 'VF_CLEN': 2 if part == 2 else 3}
+    nm = lambda t: t.replace(' ', '_').replace('*', 'P')
+    name = 'conv-%s-to-%s-%s-N%d-p%d' % (nm(src), nm(dst), VIA_NAME[via], n, part) + ('' if std == 'c++17' else '-' + std.replace('+', 'p'))
+    return Job(name, 'conv', defs, elems=[CONV_IR[dst], CONV_IR[src]], std=std, unwind=10, maxalloc=8, minalloc=n + 1, expect_witness=['normal return'],
+               desc='conversion %s -> %s via %s range, construct/assign/insert/append/emplace, all source values' % (src, dst, VIA_NAME[via]))
